@@ -34,6 +34,7 @@ def check(run):
     run.sample_from(ptraces[0], 1)
     run.cov['process_level_runs'] = dmnfam.count(ptraces, lambda ln: '"ev":"Begin"' in ln)
     run.cov['process_level_signals'] = dmnfam.count(ptraces, lambda ln: '"ev":"Cancel"' in ln)
+    dmnfam.conformance(run, traces)       # bubble traces only: the process-level events carry approximated registers
     traces = traces + ptraces
     run.validate('Monitor_Daemon', dmnfam.monitor_cfg(INV, PROP), traces, 'mon')
     runs = dmnfam.count(traces, lambda ln: '"ev":"Begin"' in ln)
